@@ -39,13 +39,19 @@ func newTimedQueue(ttl time.Duration, onPop func(peer.ID)) *timedQueue {
 // releaseExpired will release all expired items
 func (q *timedQueue) releaseExpired() {
 	q.Lock()
-	defer q.Unlock()
-	q.releaseUnsafe()
+	expired := q.releaseUnsafe()
+	q.Unlock()
+
+	// onPop is called without holding the queue lock: it takes the pool lock, while the pool
+	// pushes to the queue with its own lock held, so calling it under the queue lock deadlocks
+	for _, id := range expired {
+		q.onPop(id)
+	}
 }
 
-func (q *timedQueue) releaseUnsafe() {
+func (q *timedQueue) releaseUnsafe() (expired []peer.ID) {
 	if len(q.items) == 0 {
-		return
+		return nil
 	}
 
 	var i int
@@ -59,7 +65,7 @@ func (q *timedQueue) releaseUnsafe() {
 		}
 
 		// item is expired
-		q.onPop(next.ID)
+		expired = append(expired, next.ID)
 		i++
 	}
 
@@ -67,6 +73,7 @@ func (q *timedQueue) releaseUnsafe() {
 		copy(q.items, q.items[i:])
 		q.items = q.items[:len(q.items)-i]
 	}
+	return expired
 }
 
 func (q *timedQueue) push(peerID peer.ID) {
